@@ -18,7 +18,7 @@ man = {
     "setup_cmd": "cd /verif && ./check --build-all",
     "hooks": {
         "guard": "verif",
-        "enable": "go test -tags verif (checks are test binaries of module /verif/sim with replace => /repo; every binary is built with a generated -overlay that replaces one constant of the Go runtime (the 10 ms wall-clock time slice, see DESIGN.md 10.5) and, for C15-C18, rewrites import paths of os / sync / sync/atomic in storage, state, frame, peering, m; /repo's files are never changed by it)",
+        "enable": "go test -tags verif (checks are test binaries of module /verif/sim with replace => /repo; every binary is built with a generated -overlay that replaces one constant of the Go runtime (the 10 ms wall-clock time slice, see DESIGN.md 10.5) and, for C13, C15-C18 and C20, rewrites import paths of os / sync / sync/atomic / net in storage, state, frame, peering, m, router, switchr to the shims under /verif/sim (simos, simsync, simatomic, simsyncd, simtcp); /repo's files are never changed by it)",
         "baseline_off_cmd": "cd /repo && go test -mod=mod -json -vet=off -count=1 -timeout 25m ./...",
         "source_commits": hook_commits,
         "add_only": True,
